@@ -80,6 +80,12 @@ class Other:
     info: object = None
 
 
+# one-argument element-wise functions (axiom A25): the result has the operand's shape, each cell depends on that cell only, a masked
+# operand keeps its mask (the numpy.ma forms of the domain-limited ones can only add missing cells)
+FLOAT_UFUNCS = frozenset("sqrt cbrt exp exp2 expm1 log log2 log10 log1p sin cos tan arcsin arccos arctan sinh cosh tanh arcsinh arccosh arctanh deg2rad rad2deg degrees radians fabs".split())
+UNARY_UFUNCS = FLOAT_UFUNCS | frozenset("abs absolute negative positive rint round round_ around floor ceil trunc sign square reciprocal conjugate".split())
+
+
 class Kw(object):
     """abstract **kwargs dictionary (mutable, copied at branches)"""
 
@@ -165,6 +171,7 @@ class Result(object):
         self.layer_reduces = []  # (node, sel of the reduced value, method, funckey)
         self.wheres = []  # (node, cond, a, b, funckey)
         self.zips = []  # (node, zipped values, funckey)
+        self.selstores = []  # (target node, comparison behind the boolean index or None, index value, stored value, funckey)
         self.weight_pairs = []  # (node, array tokens, scalar sym, funckey)
         self.sorteds = []  # (node, argument value, funckey)
         self.reduces = []  # (node, callee description, seq, init, funckey)
@@ -202,6 +209,12 @@ class Interp(object):
 
     def fkey(self, fr):
         return fr.func.key if fr.func is not None else "?"
+
+    def is_state(self, module, name):
+        """a module-level name some function mutates or rebinds (a cache, a registry), not a constant"""
+        from rules.common import mutable_module_state
+
+        return (module.name, name) in mutable_module_state(self.idx)
 
     def finding(self, kind, node, msg, fr):
         self.res.findings.append((kind, getattr(node, "lineno", 0), msg, self.fkey(fr), node))
@@ -527,6 +540,10 @@ class Interp(object):
                 j = self.join(b, a)
                 # universal loop summary: coverage gained in the body for tokens of the iterated sub-list is kept
                 env[name] = replace(j, M=(a.M & ST) | (a.M & b.M))
+            elif isinstance(b, Scal) and isinstance(a, Arr):
+                # an accumulator started from a number: the iterated list is not empty (validated inputs), so after the loop
+                # it is an array; it covers what every iteration adds for the tokens of the iterated list
+                env[name] = replace(a, D=a.D | b.D, Pg=a.Pg | b.Pg, M=a.M & ST)
             elif a != b and not isinstance(a, Kw):
                 env[name] = self.join(b, a)
         if s.orelse:
@@ -618,8 +635,9 @@ class Interp(object):
             arr = a if isinstance(a, Arr) else b
             oth = b if isinstance(a, Arr) else a
             if isinstance(oth, Scal):
-                # e.g. `mask if is_masked(x) else False`
-                return replace(arr, D=arr.D | oth.D, Pg=arr.Pg | oth.Pg, M=E if arr.isbool else arr.M)
+                # e.g. `mask if is_masked(x) else False`; on the path that delivers the number there is no mask at all, so no
+                # coverage survives the join (an accumulator that is still its initial 0 on some path has masked nothing)
+                return replace(arr, D=arr.D | oth.D, Pg=arr.Pg | oth.Pg, M=E)
             if isinstance(oth, Other) and oth.tag == "bool":
                 return replace(arr, M=E if arr.isbool else arr.M)
             return Other("join", (a, b))
@@ -779,6 +797,8 @@ class Interp(object):
 
     def setitem(self, base, idx, v, tnode, fr):
         D, Pc, Pg = base.D, base.Pc, base.Pg
+        if isinstance(idx, Arr) and idx.isbool:
+            self.res.selstores.append((tnode, idx.cmp, idx, v, self.fkey(fr)))
         rng = (None, None)
         hidden_only = False
         # clamp form: a[a > hi] = hi  /  a[a < lo] = lo
@@ -949,6 +969,9 @@ class ArrayInterp(Interp):
                 return env[e.id]
             r = self.idx.resolve(fr.module, e, fr.func)
             if r is not None and r[0] == "const":
+                if self.is_state(r[1], r[2]):
+                    self.finding("global-state", e, "module-level state `%s` (mutated by some function) is used: the outcome depends on what ran earlier in the process" % e.id, fr)
+                    return Other("opaque")
                 return self.ev_static(r[1], r[1].consts.get(r[2]), ("const", r[1].name, r[2]), single=self.idx._single_assignment(r[1], r[2]))
             qn = self.q(e, fr)
             if qn in ("builtins.float", "builtins.int", "builtins.bool"):
@@ -1243,6 +1266,9 @@ class ArrayInterp(Interp):
             if r is not None and r[0] == "classattr":
                 return self.ev_static(r[1].module, r[1].attrs[r[2]], ("classattr", r[1].qual, r[2]), cls=r[1])
             if r is not None and r[0] == "const":
+                if self.is_state(r[1], r[2]):
+                    self.finding("global-state", e, "module-level state `%s` (mutated by some function) is used: the outcome depends on what ran earlier in the process" % _src(e), fr)
+                    return Other("opaque")
                 return self.ev_static(r[1], r[1].consts.get(r[2]), ("const", r[1].name, r[2]), single=self.idx._single_assignment(r[1], r[2]))
             qn = self.q(e, fr)
             return Other("global", qn or (str(base.info) + "." + a))
@@ -1378,7 +1404,11 @@ class ArrayInterp(Interp):
                 return replace(base, shape="same" if base.shape == "stacked" else "unknown", sel=sel, alias=base.alias, M=E if base.layermask else base.M, layermask=False)
             if is_slice:
                 lo, hi = idx.info
-                if lo is not None and hi is None and isinstance(lo, Scal) and lo.sym and lo.sym.startswith("-"):
+                if lo is not None and hi is None and isinstance(lo, Scal) and lo.sym and lo.sym.startswith("rest("):
+                    sel = ("TopK", lo.sym[5:-1])  # [n-k:] of n layers: the last k
+                elif lo is None and isinstance(hi, Scal) and hi.sym and hi.sym.startswith("-rest("):
+                    sel = ("BottomKOrNone", hi.sym[6:-1])  # [:-(n-k)]: the first k, but nothing at all when k = n (-0 is 0)
+                elif lo is not None and hi is None and isinstance(lo, Scal) and lo.sym and lo.sym.startswith("-"):
                     sel = ("TopK", lo.sym[1:])
                 elif lo is not None and hi is None and isinstance(lo, Scal) and isinstance(lo.const, int) and lo.const < 0:
                     sel = ("TopK", -lo.const)
@@ -1443,7 +1473,10 @@ class ArrayInterp(Interp):
                 const = a.const + b.const if isinstance(op, ast.Add) else a.const - b.const if isinstance(op, ast.Sub) else a.const * b.const
             dt = F_ if isinstance(op, ast.Div) else promote(a.dt, b.dt)
             nonfin = a.nonfinite or b.nonfinite or (isinstance(op, (ast.Div, ast.FloorDiv, ast.Mod)) and bool(b.D or b.Pg) and b.const is None)
-            return Scal(D=a.D | b.D, Pg=a.Pg | b.Pg, dt=dt, const=const, nonfinite=nonfin)
+            sym = None
+            if isinstance(op, ast.Sub) and a.sym and b.sym and a.sym.startswith("len(") and a.sym.endswith(":all)") and b.sym.startswith("kw:"):
+                sym = "rest(%s)" % b.sym  # the number of inputs minus a count parameter: how many layers are left out
+            return Scal(D=a.D | b.D, Pg=a.Pg | b.Pg, dt=dt, const=const, nonfinite=nonfin, sym=sym)
         if isinstance(a, Lst) and isinstance(b, Lst):
             if a.what == "shape" or b.what == "shape":
                 return Lst("shape", srcs=("stacked" if "same" in (a.srcs + b.srcs) else "unknown",))
@@ -1902,6 +1935,11 @@ class ArrayInterp(Interp):
         S = lambda: self.S(e)  # noqa: E731
         a0 = A[0] if A else None
         short = qn.replace("builtins.", "")
+        if qn in ("numpy.isclose", "numpy.ma.isclose", "numpy.equal", "numpy.not_equal", "numpy.greater", "numpy.greater_equal", "numpy.less", "numpy.less_equal",
+                  "numpy.ma.equal", "numpy.ma.not_equal", "numpy.ma.greater", "numpy.ma.greater_equal", "numpy.ma.less", "numpy.ma.less_equal") and len(A) >= 2 and any(isinstance(x, Arr) for x in A[:2]):
+            nm_ = qn.split(".")[-1]
+            opn = {"isclose": "Close", "equal": "Eq", "not_equal": "NotEq", "greater": "Gt", "greater_equal": "GtE", "less": "Lt", "less_equal": "LtE"}[nm_]
+            return self.compare_arr(A[:2], opn, e, fr)
         if qn.startswith("operator.") or qn.startswith("_operator."):
             nm = qn.split(".")[-1].strip("_")
             ops = {"add": ast.Add(), "iadd": ast.Add(), "sub": ast.Sub(), "isub": ast.Sub(), "mul": ast.Mult(), "imul": ast.Mult(), "truediv": ast.Div(), "itruediv": ast.Div(),
@@ -2052,13 +2090,14 @@ class ArrayInterp(Interp):
             return Other("bool")
         if qn in ("numpy.abs", "numpy.absolute", "numpy.ma.abs", "numpy.negative", "numpy.sqrt", "numpy.ma.sqrt", "numpy.exp", "numpy.ma.exp", "numpy.log", "numpy.ma.log",
                   "numpy.rint", "numpy.round", "numpy.around", "numpy.floor", "numpy.ceil", "numpy.trunc", "numpy.sign", "numpy.square", "numpy.nan_to_num", "numpy.ma.fix_invalid",
-                  "numpy.isnan", "numpy.isfinite", "numpy.isinf", "numpy.tanh", "numpy.float64", "numpy.float32", "numpy.int64", "numpy.int32", "numpy.uint", "numpy.ma.masked_invalid"):
+                  "numpy.isnan", "numpy.isfinite", "numpy.isinf", "numpy.tanh", "numpy.float64", "numpy.float32", "numpy.int64", "numpy.int32", "numpy.uint", "numpy.ma.masked_invalid") \
+                or (qn.startswith(("numpy.ma.", "numpy.")) and qn.count(".") <= 2 and qn.split(".")[-1] in UNARY_UFUNCS):
             out = K.get("out")
             if isinstance(out, Arr):
                 self.write_site(out, e, "out= of %s" % qn, fr)
             if isinstance(a0, Arr):
                 dt = a0.dt
-                if qn.split(".")[-1] in ("sqrt", "exp", "log", "tanh", "float64", "float32"):
+                if qn.split(".")[-1] in ("sqrt", "exp", "log", "tanh", "float64", "float32") or qn.split(".")[-1] in FLOAT_UFUNCS:
                     dt = F_
                 if qn.split(".")[-1] in ("isnan", "isfinite", "isinf"):
                     return replace(a0, alias=S(), isbool=True, dt=B_, rng=(None, None), maskof=E, dataof=E)
@@ -2213,7 +2252,9 @@ class ArrayInterp(Interp):
                 return Lst("mixed", items=(vals,) + tuple(pos for _ in extra))
             return Other("opaque")
         if qn in ("numpy.sort", "numpy.ma.sort", "numpy.partition", "numpy.argsort", "numpy.ravel", "numpy.reshape", "numpy.transpose", "numpy.flip", "numpy.roll", "numpy.cumsum", "numpy.diff",
-                  "numpy.take", "numpy.squeeze", "numpy.expand_dims", "numpy.swapaxes", "numpy.moveaxis", "numpy.tile", "numpy.repeat", "numpy.flipud", "numpy.fliplr"):
+                  "numpy.take", "numpy.squeeze", "numpy.expand_dims", "numpy.swapaxes", "numpy.moveaxis", "numpy.tile", "numpy.repeat", "numpy.flipud", "numpy.fliplr",
+                  "numpy.ma.ravel", "numpy.ma.reshape", "numpy.ma.transpose", "numpy.ma.squeeze", "numpy.ma.expand_dims", "numpy.ma.swapaxes", "numpy.ma.cumsum", "numpy.ma.diff", "numpy.ma.take",
+                  "numpy.ma.repeat", "numpy.ma.argsort", "numpy.atleast_1d", "numpy.atleast_2d", "numpy.atleast_3d", "numpy.ma.atleast_1d", "numpy.ma.atleast_2d", "numpy.ma.atleast_3d"):
             if isinstance(a0, Arr):
                 ax = K.get("axis", A[1] if len(A) > 1 else None)
                 if qn in ("numpy.sort", "numpy.ma.sort") and a0.shape == "stacked" and isinstance(ax, Scal) and ax.const == 0:
